@@ -400,6 +400,22 @@ impl<T> NCWriteStream<T> {
     }
 }
 
+#[cfg(feature = "verif-hooks")]
+impl<T> NCReadStream<T> {
+    /// Number of queued packets (verification hook).
+    pub fn verif_len(&self) -> usize {
+        self.q.0.lock().unwrap().len()
+    }
+}
+
+#[cfg(feature = "verif-hooks")]
+impl<T> NCWriteStream<T> {
+    /// Number of queued packets (verification hook).
+    pub fn verif_len(&self) -> usize {
+        self.q.0.lock().unwrap().len()
+    }
+}
+
 impl<T: Len> NCReadStream<T> {
     /// Get the size of the front packet.
     pub fn peek_size(&self) -> Option<usize> {
